@@ -118,6 +118,43 @@ theorem series_error_iff (reprF : Rat → String) (c : Column) (inplace : Bool) 
         c.dtype ≠ "object" ∧ c.dtype ≠ "str" ∧ c.dtype ≠ "int" ∧ c.dtype ≠ "float" :=
   seriesToStr_err_iff reprF c inplace e
 
+/-! ### the number of missing values is preserved
+
+  "keeps missing values missing" read as a count: the converted column has exactly as many missing cells as the
+  input (none lost to the string "nan", none created), for both entry points and every mode. -/
+
+private theorem count_missing_eq : ∀ (a b : List Cell), a.length = b.length →
+    (∀ i (hi : i < b.length) (hi' : i < a.length), a[i] = Cell.missing ↔ b[i] = Cell.missing) →
+    a.count Cell.missing = b.count Cell.missing
+  | [], [], _, _ => rfl
+  | [], _ :: _, hl, _ => by simp at hl
+  | _ :: _, [], hl, _ => by simp at hl
+  | x :: a, y :: b, hl, h => by
+    have h0 := h 0 (by simp) (by simp)
+    have ih := count_missing_eq a b (by simpa using hl) (fun i hi hi' => by
+      have := h (i + 1) (by simpa using hi) (by simpa using hi')
+      simpa only [List.getElem_cons_succ] using this)
+    simp only [List.getElem_cons_zero] at h0
+    by_cases hx : x = Cell.missing
+    · have hy := h0.mp hx
+      subst hx; subst hy; simp [ih]
+    · have hy : ¬ y = Cell.missing := fun hy => hx (h0.mpr hy)
+      rw [List.count_cons_of_ne hx, List.count_cons_of_ne hy, ih]
+
+/-- `series_to_str` keeps the number of missing values -/
+theorem series_missing_count (reprF : Rat → String) (c : Column) (inplace : Bool) (res : Column)
+    (h : (seriesToStr reprF c inplace).col? = some res) :
+    res.values.count Cell.missing = c.values.count Cell.missing :=
+  have s := series_values reprF c inplace res h
+  count_missing_eq _ _ s.1 s.2.1
+
+/-- `dataframe_column_to_str` keeps the number of missing values, in every mode -/
+theorem frame_missing_count (reprF : Rat → String) (c : Column) (inplace returnCol : Bool) (res : Column)
+    (h : (dataframeColumnToStr reprF c inplace returnCol).col? = some res) :
+    res.values.count Cell.missing = c.values.count Cell.missing :=
+  have s := frame_values reprF c inplace returnCol res h
+  count_missing_eq _ _ s.1 s.2.1
+
 /-! non-vacuity: a float column with a missing value and an integral value -/
 example : (seriesToStr (fun _ => "?") { dtype := "float", values := [.flt 3, .missing] } false).col?
     = some { dtype := "str", values := [.str "3", .missing] } := by decide
